@@ -883,7 +883,9 @@ func checkArtifact(c Case) pbt.Result {
 			sp.HTTPClient = &http.Client{Transport: spkit.RoundTripFunc(func(r *http.Request) (*http.Response, error) {
 				entered = true
 				cancel()
-				bound = r.Context().Err() != nil
+				// bound to the incoming request, or at least bounded by a deadline of its own
+				_, hasDeadline := r.Context().Deadline()
+				bound = r.Context().Err() != nil || hasDeadline
 				return nil, errors.New("resolver stalled; request abandoned")
 			})}
 			form := url.Values{"SAMLart": {"AAQAAMFbLinlXaCM+FIxiDwGOLAy2T71gbpO7ZhNzAgEANlB90ECfpNEVLg="}}
@@ -897,7 +899,7 @@ func checkArtifact(c Case) pbt.Result {
 				return res
 			}
 			if entered && !bound {
-				res.Err = "the artifact resolution request is not bound to the incoming request's context: with a resolver that accepts the connection and stalls, ParseResponse would hang even after the request is cancelled"
+				res.Err = "the artifact resolution request is neither bound to the incoming request's context nor given a deadline: with a resolver that accepts the connection and stalls, ParseResponse would hang even after the request is cancelled"
 				return res
 			}
 			if r.err == nil {
